@@ -255,6 +255,19 @@ func (c *SizedLRU) RemoveElement(elem *list.Element) {
 	c.gaugeCacheLogicalBytes.Set(float64(c.uncompressedSize))
 }
 
+// RemoveElementIfCurrent removes elem from the cache, but only if it is still
+// the indexed element for its key and still holds value, i.e. if it was
+// neither removed nor replaced since the caller looked it up (callers drop
+// the lock between the lookup and the removal).
+func (c *SizedLRU) RemoveElementIfCurrent(elem *list.Element, value lruItem) {
+	kv := elem.Value.(*entry)
+	cur, ok := c.cache[kv.key]
+	if !ok || cur != elem || kv.value != value {
+		return
+	}
+	c.RemoveElement(elem)
+}
+
 // Len returns the number of items in the cache
 func (c *SizedLRU) Len() int {
 	return len(c.cache)
